@@ -34,6 +34,18 @@ def rb_unwind(k, n=16):
            "ext2fs_compare_generic_bmap.0:%d" % (n + 2)]
     return hl
 
+def legacy_cfgs():
+    c = []
+    for name, op in OPS.items():
+        for start in (0, 1):
+            d = {"OP": op, "START": start, "N": 16, "CBMAX": 0}
+            if name == "RESIZE":
+                for g in (0, 8, -8):
+                    c.append(dict(d, GROW=g))
+            else:
+                c.append(d)
+    return c
+
 def rb_cfgs():
     c = []
     for name, op in OPS.items():
@@ -61,6 +73,21 @@ HARNESSES = [
          configs=rb_cfgs(), cap_quick=240,
          bound="N=16 positions, start in {0,1}, pad 0..3, cluster_bits 0..1; trees of k<=3 extents in all 6 "
                "red-black-valid shapes, extents and the three cursors symbolic under Inv"),
+    dict(name="rb_setrange", src="rb_setrange.c",
+         cut_statics={"lib/ext2fs/blkmap64_rb.c": ["rb_insert_extent"]},
+         extra_src=["lib/ext2fs/bitops.c"],
+         funcs=["rb_set_bmap_range"],
+         unwind=4, unwindset=["rb_set_bmap_range.0:26", "rb_set_bmap_range.1:26", "rb_set_bmap_range.2:26",
+                              "rb_insert_extent.0:12"] + ["main.%d:26" % i for i in range(8)],
+         configs=[{"NB": 8}, {"NB": 16, "_tier": "thorough"}],
+         backends=["z3", "default", "kissat"],
+         bound="8-bit (thorough: 16-bit) source buffer, num 1..NB, start below 4096, bitmap start 0..8; rb_insert_extent cut (recording stub)"),
+    dict(name="legacy32", src="legacy.c",
+         extra_src=["lib/ext2fs/gen_bitmap64.c", "lib/ext2fs/bitops.c", "lib/ext2fs/blkmap64_ba.c",
+                    "lib/ext2fs/blkmap64_rb.c", "lib/ext2fs/rbtree.c"],
+         funcs=["ext2fs_make_generic_bitmap", "ext2fs_mark_generic_bitmap"],
+         configs=legacy_cfgs(), unwind=40,
+         bound="N=16 positions, start in {0,1}, pad 0..3; every byte of the bit array symbolic; no cluster granularity (32-bit bitmaps have none)"),
     dict(name="ba", src="ba.c", extra_src=BM_SRC + ["lib/ext2fs/blkmap64_rb.c", "lib/ext2fs/rbtree.c"],
          funcs=["ext2fs_alloc_generic_bmap", "ba_new_bmap"],
          configs=ba_cfgs(), unwind=40,
